@@ -22,6 +22,8 @@ def cdeep(t):
 def run(chk, tier):
     P = Prog("default")
     chk.configs.add("default")
+    from props import c12
+    chk.guarded(c12.r_offset_writer_map, P, tier)
     for r in (r_zones, r_year_rule, r_reader_widths, r_writer, r_weekday, r_absint, r_flow, r_own_ranges, r_comments, r_colon_ws, r_item_arms, r_mandatory_space):
         chk.guarded(r, P, tier)
     chk.assume("optional-part acceptance, comments, white-space runs and the values returned (the round trip) are NOT decided")
